@@ -113,6 +113,17 @@ theorem C13_documented_ok_vip (parseIP : ParseIP) (f : VipFile) (h : docVip pars
     ∃ m, vipLoad parseIP f = .ok m := vipLoad_of_doc parseIP h
 theorem C13_documented_ok_gslb (f : GslbFile) (h : docGslb f = true) : ∃ n, gslbLoad f = .ok n :=
   gslbLoad_of_doc h
+/-- route_rule.data in the documented format is accepted: every basic rule has a cluster name, a host or a path, valid
+    wildcard patterns, no two rules of a product insert the same (host key, path key) into the trees; every advanced
+    rule has a cluster name and a condition that builds. -/
+theorem C13_documented_ok_route (condOk : CondOk) (f : RouteFile) (h : docRoute condOk f = true) :
+    ∃ c, routeLoad condOk f = .ok c := routeLoad_of_doc condOk h
+/-- cluster_conf.data in the documented format is accepted (absent sections and fields take their defaults). -/
+theorem C13_documented_ok_cluster_conf (f : Option ClusterFile) (h : docCluster f = true) : ∃ l, ccLoad f = .ok l :=
+  ccLoad_of_doc h
+/-- cluster_table.data in the documented format is accepted (complete backends, one with weight > 0 per sub-cluster). -/
+theorem C13_documented_ok_cluster_table (f : CtFile) (h : docCt f = true) : ∃ n, ctLoad f = .ok n := ctLoad_of_doc h
+
 /-- a set of loaded files whose cross references are closed — including a basic rule whose ClusterName is
     `ADVANCED_MODE` — passes the cross-file check (the unfixed code rejected it). -/
 theorem C13_documented_ok_xref (s : ServerData) (h : Closed s) : xcheck s = .ok () :=
@@ -125,6 +136,20 @@ def exHost : HostFile :=
 example : docHost exHost = true := by decide
 example : hostLoad exHost = .ok { defaultProduct := "p", hostMap := [("a.com", "t")], hostTagMap := [("t", "p")] } := by
   decide
+
+def exBackend : Backend := { name := some "a", addr := some "1.1.1.1", port := some 80, weight := some 1 }
+def exCt : CtFile := { version := some "1", config := some [("c", [("s", [some exBackend])])] }
+def exClusterConf : ClusterConf :=
+  { backendConf := some { protocol := some "HTTP" }, checkConf := none, gslbBasic := none, clusterBasic := none }
+def exCluster : Option ClusterFile := some { version := some "1", config := some [("c", exClusterConf)] }
+def exRoute : RouteFile :=
+  { version := some "1",
+    basic := some [("p", [{ hostname := ["a.com"], path := ["/a*", "/b"], clusterName := some "ADVANCED_MODE" },
+                          { hostname := [], path := ["/a*"], clusterName := some "c" }])],
+    adv := some [("p", [{ cond := some "default_t()", clusterName := some "c" }])] }
+example : docCt exCt = true := by decide
+example : docCluster exCluster = true := by decide
+example : docRoute (fun c => c == "default_t()") exRoute = true := by decide
 
 /-- the documented example that the unfixed `check()` rejected: basic rule → ADVANCED_MODE -/
 def exAdv : ServerData :=
@@ -140,5 +165,21 @@ example : Closed exAdv := (C13_check_iff_closed _).mp (by decide)
 example : xcheck { exAdv with clusters := [] } = .err := by decide
 /-- cluster_table `[null]` backend: an error, not a crash (the unfixed code dereferenced nil here) -/
 example : ctLoad { version := some "1", config := some [("c", [("s", [none])])] } = .err := by decide
+
+/-! ### further files: name_conf, session ticket key, BalTable.Init (gslb × cluster_table) -/
+theorem C13_no_crash_name_conf (f : NameFile) : nameLoad f ≠ .crash := nameLoad_ne_crash f
+theorem C13_no_crash_session_ticket_key (d : Option TicketFile) (n : Nat) : ticketLoad d n ≠ .crash :=
+  ticketLoad_ne_crash d n
+theorem C13_no_crash_baltable (g : GslbFile) (c : CtFile) : balInit g c ≠ .crash := balInit_ne_crash g c
+
+def exGslbOpen : GslbFile := { clusters := some [("c", [("s1", 100)])], hostname := some "h", ts := some "0" }
+def exCtOpen : CtFile := { version := some "1", config := some [("c", [("s2", [some exBackend])])] }
+
+/-- **BalTable.Init is NOT closed**: gslb.data sends all traffic of cluster `c` to sub-cluster `s1`, cluster_table.data has
+    backends only for `s2` — the pair is accepted (only the cluster NAME is cross-checked), `s1` has no backend list. -/
+theorem C13_witness_baltable_open :
+    balInit exGslbOpen exCtOpen = .ok [("c", "s1", 100, none)] ∧ balClosed [("c", "s1", 100, none)] = false := by
+  constructor <;> decide
+
 
 end BfeVerif.C13
